@@ -4,6 +4,7 @@ import importlib
 import contracts.orderedset  # noqa: F401
 import contracts.identityset  # noqa: F401
 import contracts.lrucache  # noqa: F401
+import contracts.immutabledict  # noqa: F401
 from pyvc.contract import FUNCS
 from vlib.proof import run_proofs, check_lemmas
 from vlib.bounded import run_bounded
